@@ -39,7 +39,8 @@ Inductive op :=
 | Select (q : qname)              (* also stands for INSERT/UPDATE/DELETE: any statement that must find the table *)
 | UseDb (d : name)
 | UseSchema (d : option name) (s : name)
-| Current.                        (* SELECT CURRENT_DATABASE(), CURRENT_SCHEMA() *)
+| Current                         (* SELECT CURRENT_DATABASE(), CURRENT_SCHEMA() *)
+| Reconnect (d s : name).         (* the slot's session is replaced by a NEW one: fs.connect(database=d, schema=s), default flags *)
 
 Inductive res :=
 | RUnit
@@ -166,6 +167,14 @@ Definition exec (w : world) (ci : nat) (c : conn) (o : op) : world * res :=
                                                   edb := d; esch := s |} |}, RUnit)
       end
   | Current => (w, RCtx (edb c) (esch c))
+  | Reconnect d s =>
+      (* conn.py:55-104 with create_database_on_connect = create_schema_on_connect = True (the general case is Connect.v): what is
+         missing is created NOW - whatever earlier sessions of the instance created or dropped - and the context is set *)
+      let k1 := match assoc (cat w) d with Some _ => cat w | None => cat w ++ [(d, [(s_main, [])])] end in
+      let k2 := match assoc k1 d with
+                | Some ss => match assoc ss s with Some _ => k1 | None => put k1 d (ss ++ [(s, [])]) end
+                | None => k1 end in
+      ({| cat := k2; conns := cset (conns w) ci {| cdb := Some d; csch := Some s; dset := true; sset := true; edb := d; esch := s |} |}, RUnit)
   end.
 
 Definition step (w : world) (ci : nat) (o : op) : world * res :=
@@ -220,6 +229,7 @@ Definition dec_op (x : sexp) : option (nat * op) :=
           | 5 => option_map (fun q => (c, Select q)) (dec_q b)
           | 6 => option_map (fun d => (c, UseDb d)) (dec_str b)
           | 7 => match dec_opt dec_str a, dec_str b with Some d, Some s => Some (c, UseSchema d s) | _, _ => None end
+          | 9 => match dec_str a, dec_str b with Some d, Some s => Some (c, Reconnect d s) | _, _ => None end
           | _ => Some (c, Current)
           end
       end
